@@ -18,12 +18,14 @@ capability checks of `_callCommand` (C01), what `invalidCommand` handlers do (ou
 a command body that uses its `irc` more than once, non-ASCII case folding in `canonicalName`.
 -/
 import LimnoriaModel.Py.Basic
+import LimnoriaModel.Gen.CanonicalName
 namespace C14
 open Py
 
 /-! ## canonicalName -/
 
-def isSpecial (c : Char) : Bool := c = '\t' || c = '-' || c = '_' || c = ' '
+/-- `x in special` (the string is regenerated from the source on every run) -/
+def isSpecial (c : Char) : Bool := Gen.canonicalSpecial.contains c
 
 /-- `callbacks.canonicalName(command)` (ASCII case folding) -/
 def canonicalName (s : Str) : Str :=
